@@ -148,7 +148,9 @@ type endEv struct {
 	Pairs    []int  `json:"pairs"`
 	NumSites int    `json:"num_sites"`
 	NumLabel int    `json:"num_labels"`
-	OpOnly   bool   `json:"op_only"`
+	// executed (non-skipped) library operations per operation name and object kind, concurrent world only
+	OpCounts map[string]map[string]int `json:"op_counts"`
+	OpOnly   bool                      `json:"op_only"`
 }
 
 // ReplayFile is the on-disk format of /verif/replays/*.json.
